@@ -111,22 +111,28 @@ def rule_from_error(ctx, rule_id="C18.2-error-to-exception-never-lost"):
     probs = []
     cells = 0
     try:
-        for registered, args, kw, ctor in itertools.product((True, False), (None, [], [Sym("a0")]), (None, {}, {"k": Sym("v")}), ("ok", "TypeError", "ValueError", "KeyError", "RuntimeError")):
+        # parameters of the generic constructor that a keyword of the same name would collide with (positional-or-keyword ones)
+        ae = ctx.program.cls("autobahn.wamp.exception.ApplicationError").methods["__init__"]
+        collide = {x.arg for x in ae.node.args.args}
+        for registered, args, kw, ctor in itertools.product((True, False), (None, [], [Sym("a0")]), (None, {}, {"k": Sym("v")}, {"error": Sym("v")}, {"self": Sym("v")}),
+                                                            ("ok", "ok-falsy", "TypeError", "ValueError", "KeyError", "RuntimeError")):
             if not registered and ctor != "ok":
                 continue
             cells += 1
             built = []
 
             def construct(*a, **k):
-                if ctor != "ok":
+                if ctor not in ("ok", "ok-falsy"):
                     raise TinyRaise(ctor)
-                o = Sym("user-exception", args=list(a), kwargs=dict(k))
+                o = Sym("user-exception", truthy=(ctor == "ok"), args=list(a), kwargs=dict(k))  # instances may be falsy (__len__ / __bool__)
                 built.append(o)
                 return o
             ecls = Sym("registered-class", methods={"__call__": construct})
 
             def default(f_, a_, k_=None):
                 if f_ == "exception.ApplicationError":
+                    if set(k_ or {}) & collide:
+                        raise TinyRaise("TypeError")  # got multiple values for argument ...
                     return Sym("ApplicationError", args=list(a_), kwargs=dict(k_ or {}))
                 return Sym(f"<{f_}>")
             msg = fn.params()[1]
@@ -135,13 +141,14 @@ def rule_from_error(ctx, rule_id="C18.2-error-to-exception-never-lost"):
                    f"{msg}.callee": None, f"{msg}.callee_authid": None, f"{msg}.callee_authrole": None, f"{msg}.forward_for": None}
             t = Tiny(env, default_call=default)
             r = t.run(body)
-            cell = f"error URI {'registered' if registered else 'not registered'}, args {args}, kwargs {kw}, constructor {'accepts' if ctor == 'ok' else 'raises ' + ctor}"
+            cell = (f"error URI {'registered' if registered else 'not registered'}, args {args}, kwargs {kw}, constructor "
+                    f"{'accepts' if ctor == 'ok' else ('accepts (instances are falsy)' if ctor == 'ok-falsy' else 'raises ' + ctor)}")
             if r[0] != "return" or not isinstance(r[1], Sym):
                 probs.append(f"{cell}: no exception object is returned ({r[0]} {r[1]}): the remote error is lost, the pending call never fails")
                 continue
             o = r[1]
             wa, wk = list(args or []), dict(kw or {})
-            if registered and ctor == "ok":
+            if registered and ctor in ("ok", "ok-falsy"):
                 if not (o.name == "user-exception" and o.attrs["args"] == wa and o.attrs["kwargs"] == wk):
                     probs.append(f"{cell}: returns {o} with {o.attrs.get('args')}, {o.attrs.get('kwargs')}, expected the registered class built from the payload")
             else:
@@ -172,6 +179,54 @@ def rule_registries(ctx):
             val = norm.text(x.ast.value)
             ok = (key == "error" and "uri.Pattern(error" in val) or (key == "exception._wampuris[0].uri()" and val == "exception._wampuris")
             ctx.ob(f"`{stmt_key(y.ast)[:50]}` is keyed by the URI of the pattern stored for the class", ok, f"key {key} vs patterns {val}", fn.loc(y.ast))
+    # the @error decorator: the URI list it fills is the decorated class's own -- cell-wise over a class that has no list, one that has its
+    # own list, and one that only inherits the list of a decorated base class
+    from ..core.tiny import Tiny, Sym
+    dec = ctx.program.func("autobahn.wamp.uri.error")
+    inner = [c for c in dec.nested_list() if c.parent is dec]
+    ctx.require(len(inner) == 1, "uri.error: inner decorator function not found")
+    df = inner[0]
+    ctx.analysed(df)
+    probs = []
+    try:
+        for kind in ("plain class", "class with its own list", "subclass of a decorated class"):
+            base_list = [Sym("pattern-of-the-base-class")]
+            own_list = [Sym("earlier-pattern-of-this-class")]
+            cls = Sym("exception-class")
+            cls.attrs["__dict__"] = {}
+            if kind == "class with its own list":
+                cls.attrs["_wampuris"] = own_list
+                cls.attrs["__dict__"]["_wampuris"] = own_list
+            elif kind == "subclass of a decorated class":
+                cls.attrs["_wampuris"] = base_list  # visible through inheritance, not in the class's own __dict__
+
+            def default(f_, a_, k_=None):
+                if f_ == "hasattr" and len(a_) == 2:
+                    return a_[1] in a_[0].attrs if isinstance(a_[0], Sym) else False
+                if f_ == "getattr" and len(a_) >= 2 and isinstance(a_[0], Sym):
+                    return a_[0].attrs.get(a_[1], a_[2] if len(a_) > 2 else None)
+                if f_ == "issubclass":
+                    return True
+                if f_ == "vars" and len(a_) == 1 and isinstance(a_[0], Sym):
+                    return a_[0].attrs["__dict__"]
+                if f_.endswith("Pattern"):
+                    return Sym("new-pattern", uri=a_[0] if a_ else None)
+                return Sym(f"<{f_}>")
+            t = Tiny({df.params()[0]: cls, dec.params()[0]: "com.new", "Pattern.URI_TARGET_EXCEPTION": 3}, default_call=default, opaque_globals=True)
+            r = t.run([x for x in df.node.body if not (isinstance(x, ast.Expr) and isinstance(x.value, ast.Constant))])
+            lst = cls.attrs.get("_wampuris")
+            newp = [x for x in (lst or []) if isinstance(x, Sym) and x.name == "new-pattern"]
+            if r[0] != "return" or r[1] is not cls or len(newp) != 1:
+                probs.append(f"{kind}: decorator gives {r[0]} {r[1]}, URI list {lst}")
+            elif kind == "subclass of a decorated class" and (lst is base_list or len(base_list) != 1):
+                probs.append(f"{kind}: the new URI was appended to the list inherited from the base class ({base_list}): the subclass is sent under the base class's URI "
+                             f"and its own URI maps to nothing")
+            elif kind == "class with its own list" and lst is not own_list:
+                probs.append(f"{kind}: the existing list of the class was replaced")
+        ctx.ob("@error: the URI is added to the decorated class's own pattern list (never to a list inherited from a decorated base class) [3 cells]", not probs,
+               "; ".join(probs[:2]), df.loc())
+    except AnalysisError as e:
+        raise AnalysisError(f"[C18.3-registries-written-together] uri.error outside the modelled subset: {e}")
     init = ctx.program.func(f"{BASESESSION}.__init__")
     ctx.ob("registries are per session", sum(1 for s in walk_no_defs(init.node) if isinstance(s, (ast.Assign, ast.AnnAssign)) and
                                              norm.text(s.targets[0] if isinstance(s, ast.Assign) else s.target) in ("self._ecls_to_uri_pat", "self._uri_to_ecls")) == 2, "changed", init.loc())
